@@ -20,7 +20,7 @@ BOUNDS = {'quick': 5, 'thorough': 7}
 class JSONFormat(rt.Format):
     name = 'json'
     ext = 'json'
-    fields = ('abstract', 'attrs', 'ctc-names')
+    fields = ('abstract', 'attrs', 'ctc-names', 'ctc-exact')
 
     def write(self, fm, path):
         return JSONWriter(path, fm).transform()
